@@ -21,45 +21,45 @@ namespace MitmVerif.C03
 
 inductive CS where
   | uninit | waitHdr | consume | stream | done | errored
-  deriving DecidableEq, Repr, Inhabited
+  deriving DecidableEq, Repr, Inhabited, Hashable
 
 inductive SS where
   | uninit | waitHdr | consume | stream | done | errored
-  deriving DecidableEq, Repr, Inhabited
+  deriving DecidableEq, Repr, Inhabited, Hashable
 
 inductive Hook where
   | requestheaders | request | responseheaders | response | error
   | connect | connected | connectError
-  deriving DecidableEq, Repr, Inhabited
+  deriving DecidableEq, Repr, Inhabited, Hashable
 
 inductive Action where
   | pass | kill | resp | stream
-  deriving DecidableEq, Repr, Inhabited
+  deriving DecidableEq, Repr, Inhabited, Hashable
 
 inductive ReqKind where
   | norm | connect | nohost | invalid
-  deriving DecidableEq, Repr, Inhabited
+  deriving DecidableEq, Repr, Inhabited, Hashable
 
 inductive RespKind where
   | norm | ws101 | up101 | invalid
-  deriving DecidableEq, Repr, Inhabited
+  deriving DecidableEq, Repr, Inhabited, Hashable
 
 /-- outcome of `check_body_size` steps 2/3 for an expected size -/
 inductive Verdict where
   | ok | stream | tooLarge
-  deriving DecidableEq, Repr, Inhabited
+  deriving DecidableEq, Repr, Inhabited, Hashable
 
 /-- `flow.error`: unset, `Error.KILLED_MESSAGE`, anything else -/
 inductive ErrK where
   | none | killed | other
-  deriving DecidableEq, Repr, Inhabited
+  deriving DecidableEq, Repr, Inhabited, Hashable
 
 /-- where `handle_protocol_error` returns to -/
 inductive Ret where
   | top          -- called from `_handle_event`, or from `make_server_connection` in `state_consume_request_body`
   | streamHdr    -- `start_request_stream` called from `state_wait_for_request_headers`
   | streamLate   -- `start_request_stream` called from `check_body_size` (late streaming)
-  deriving DecidableEq, Repr, Inhabited
+  deriving DecidableEq, Repr, Inhabited, Hashable
 
 /-- suspension points of the generator: the blocking command it waits for -/
 inductive K where
@@ -78,11 +78,11 @@ inductive K where
   | invHdr                                  -- requestheaders hook inside check_invalid(True)
   | invErr (request : Bool)                 -- error hook inside check_invalid
   | connectHook | connectOpen | connectedHook | connectErrHook
-  deriving DecidableEq, Repr, Inhabited
+  deriving DecidableEq, Repr, Inhabited, Hashable
 
 inductive Tag where
   | rh | rd | re | rx | sh | sd | se | sx
-  deriving DecidableEq, Repr, Inhabited
+  deriving DecidableEq, Repr, Inhabited, Hashable
 
 /-- commands yielded by the stream (Log omitted) -/
 inductive Out where
@@ -94,7 +94,7 @@ inductive Out where
   | closeServer                          -- CloseConnection(flow.server_conn) in check_invalid(False)
   | crash                                -- an exception escaped `_handle_event`
   | streamStart                          -- ghost: start_request_stream sent the request headers upstream
-  deriving DecidableEq, Repr, Inhabited
+  deriving DecidableEq, Repr, Inhabited, Hashable
 
 /-- monitor over the emitted commands: which lifecycle hooks fired, and the five ordering violations -/
 structure Mon where
@@ -109,7 +109,7 @@ structure Mon where
   v3 : Bool := false    -- responseheaders twice, or response without responseheaders before it, or response twice
   v4 : Bool := false    -- response and error both fired
   v5 : Bool := false    -- responseheaders fired, request not fired before it, request body not streamed
-  deriving DecidableEq, Repr, Inhabited
+  deriving DecidableEq, Repr, Inhabited, Hashable
 
 def mon (m : Mon) : Out → Mon
   | .hook .requestheaders => { m with fRH := true, v1 := m.v1 || m.fRH || m.fReq || m.fRespH || m.fResp || m.fErr }
@@ -148,9 +148,11 @@ structure Core where
   procReqErr : Bool := false   -- a RequestProtocolError has been handled
   procRespErr : Bool := false  -- a ResponseProtocolError (from the server connection) has been handled
   seenReqHdr : Bool := false
+  draining : Bool := false     -- inside `__continue`'s replay loop (set by a completion, cleared by the next direct event)
+  stale : Bool := false        -- an exception escaped from `__continue` while queued events were (possibly) left behind
   bad : Bool := false          -- an input outside the event grammar was handled
   m : Mon := {}
-  deriving DecidableEq, Repr, Inhabited
+  deriving DecidableEq, Repr, Inhabited, Hashable
 
 /-- writer: the core state and the commands emitted during this call (newest first) -/
 structure W where
@@ -201,7 +203,7 @@ inductive AEv where
   | hookDone (h : Hook) (a : Action)
   | connDone (ok : Bool)
   | openDone (ok : Bool)
-  deriving DecidableEq, Repr, Inhabited
+  deriving DecidableEq, Repr, Inhabited, Hashable
 
 def AEv.isDone : AEv → Bool
   | .hookDone _ _ | .connDone _ | .openDone _ => true
@@ -248,7 +250,8 @@ def handlePE (w : W) (isResp : Bool) (ret : Ret) (peek : Bool) : W :=
     let c := w.c
     let upstream := !isResp && (c.cs == .stream || c.cs == .done) && !(c.ss == .done || c.ss == .errored)
     let need := !(c.cs == .errored || c.ss == .done || c.ss == .errored)
-    let w := if upstream then (w.emit (.send false .rx)).upd fun c => { c with cs := .errored, ss := .errored } else w
+    let w := if upstream then (w.emit (.send false .rx)).upd fun c => { c with ss := .errored } else w
+    let w := if !isResp then w.upd fun c => { c with cs := .errored } else w
     if need then (w.upd fun c => { c with err := .other }).fire .error (.peErr isResp ret)
     else peAfter w isResp ret peek
 
@@ -340,29 +343,36 @@ def serverEvent (w : W) (ev : AEv) : W :=
   | .errored, _ => w
   | _, _ => w.crash
 
-/-- the event grammar, checked when an HttpEvent is handled -/
+/-- the event grammar, checked when an HttpEvent is handled.  Events are handled in arrival order (events queued
+    before a DropStream are still replayed after it, so `dropped` restricts nothing) — unless an exception escaped
+    from `__continue` earlier and left part of the queue behind (`stale`): those events are replayed later, after
+    newer ones, so the order-related rules are not assumed any more. -/
 def grammarOk (c : Core) : AEv → Bool
-  | .reqHeaders .. => !c.dropped && !c.seenReqHdr && !c.procReqErr
-  | .reqData _ | .reqEOM _ => !c.dropped && !c.procReqErr
-  | .reqErr => !c.dropped
-  | .respHeaders .. | .respData _ | .respEOM _ => !c.dropped && c.attached && !c.procRespErr
-  | .respErr => !c.dropped && c.attached
+  | .reqHeaders .. => !c.seenReqHdr && (c.stale || !c.procReqErr)
+  | .reqData _ | .reqEOM _ => c.stale || !c.procReqErr
+  | .reqErr => true
+  | .respHeaders .. | .respData _ | .respEOM _ => c.attached && (c.stale || !c.procRespErr)
+  | .respErr => c.attached
   | _ => false
 
 def badCore : Core := { bad := true, cs := .errored, ss := .errored }
 
-def procEv (c : Core) (ev : AEv) (peek : Bool) : W :=
+/-- an HttpEvent handled by `_handle_event`; `queued`: it is replayed from `_paused_event_queue` by `__continue` -/
+def procEv (c : Core) (ev : AEv) (peek : Bool) (queued : Bool) : W :=
   if c.bad then ⟨c, []⟩
   else if c.pt then ⟨c, []⟩
   else if !grammarOk c ev then ⟨badCore, []⟩
   else
-    let w : W := ⟨{ c with crashed := false }, []⟩
-    match ev with
-    | .reqErr => (handlePE w false .top peek).upd fun c => { c with procReqErr := true }
-    | .respErr => (handlePE w true .top peek).upd fun c => { c with procRespErr := true }
-    | .reqHeaders .. => (clientEvent w ev peek).upd fun c => { c with seenReqHdr := true }
-    | .reqData _ | .reqEOM _ => clientEvent w ev peek
-    | _ => serverEvent w ev
+    let queued := queued && c.draining
+    let w : W := ⟨{ c with crashed := false, draining := queued }, []⟩
+    let w := match ev with
+      | .reqErr => (handlePE w false .top peek).upd fun c => { c with procReqErr := true }
+      | .respErr => (handlePE w true .top peek).upd fun c => { c with procRespErr := true }
+      | .reqHeaders .. => (clientEvent w ev peek).upd fun c => { c with seenReqHdr := true }
+      | .reqData _ | .reqEOM _ => clientEvent w ev peek
+      | _ => serverEvent w ev
+    -- an exception that escapes from `__continue` leaves the rest of `_paused_event_queue` behind
+    if queued && w.c.crashed then w.upd fun c => { c with stale := true } else w
 
 -- ------------------------------------------------------------------------------------------------
 -- a completion resumes the generator
@@ -447,14 +457,17 @@ def resume (w : W) (k : K) (ok : Bool) (peek : Bool) : W :=
   | .connectedHook => connectSends (w.upd fun c => { c with pt := true })
   | .connectErrHook => connectSends (w.upd fun c => { c with cs := .errored, live := false })
 
+/-- an exception that escapes from `__continue` leaves the rest of `_paused_event_queue` behind -/
+def markStale (w : W) : W := if w.c.crashed then w.upd fun c => { c with stale := true } else w
+
 /-- a CommandCompleted event for the command the layer is paused on -/
 def procDone (c : Core) (ev : AEv) (peek : Bool) : W :=
   if c.bad then ⟨c, []⟩
   else match c.paused with
   | none => ⟨badCore, []⟩
   | some k =>
-    let w : W := ⟨{ c with paused := none, crashed := false }, []⟩
-    match ev, k.hook with
+    let w : W := ⟨{ c with paused := none, crashed := false, draining := true }, []⟩
+    markStale <| match ev, k.hook with
     | .hookDone h a, some h' =>
       if h == h' then resume (w.upd fun c => applyAction c h a) k true peek else ⟨badCore, []⟩
     | .connDone ok, none =>
@@ -478,7 +491,7 @@ inductive Ev where
   | hookDone (h : Hook) (a : Action)
   | connDone (ok : Bool)
   | openDone (ok : Bool)
-  deriving DecidableEq, Repr, Inhabited
+  deriving DecidableEq, Repr, Inhabited, Hashable
 
 def Ev.isDone : Ev → Bool
   | .hookDone _ _ | .connDone _ | .openDone _ => true
@@ -536,10 +549,10 @@ def bufAfter (s : St) (ev : Ev) : Nat × Nat :=
   | _ => (s.reqBuf, s.respBuf)
 
 /-- one call of `_handle_event` / `__continue`'s first part on event `ev` (the queue is what remains) -/
-def handleNow (s : St) (ev : Ev) : St :=
+def handleNow (s : St) (ev : Ev) (queued : Bool) : St :=
   let peek := s.queue.any Ev.isReqErr
   let a := abstractEv s ev
-  let w := if ev.isDone then procDone s.core a peek else procEv s.core a peek
+  let w := if ev.isDone then procDone s.core a peek else procEv s.core a peek queued
   let (rb, sb) := bufAfter s ev
   { s with core := w.c, reqBuf := rb, respBuf := sb, outs := w.out ++ s.outs }
 
@@ -550,16 +563,16 @@ def drain : Nat → St → St
     if s.core.paused.isSome || s.core.crashed then s
     else match s.queue with
       | [] => s
-      | e :: q => drain fuel (handleNow { s with queue := q } e)
+      | e :: q => drain fuel (handleNow { s with queue := q } e true)
 
 /-- `Layer.handle_event` -/
 def step (s : St) (ev : Ev) : St :=
   if s.core.paused.isSome then
     if ev.isDone then
-      let s := handleNow s ev
+      let s := handleNow s ev false
       drain s.queue.length s
     else { s with queue := s.queue ++ [ev] }
-  else handleNow s ev
+  else handleNow s ev false
 
 def init (limit thresh : Nat) : St := { limit, thresh }
 
@@ -570,6 +583,6 @@ def St.trace (s : St) : List Out := s.outs.reverse
 
 /-- the environment has closed the client side of this stream and nothing is pending -/
 def St.settled (s : St) : Bool :=
-  s.core.paused.isNone && s.queue.isEmpty && (s.core.procReqErr || s.core.dropped)
+  s.core.paused.isNone && (s.core.procReqErr || s.core.dropped)
 
 end MitmVerif.C03
